@@ -107,6 +107,7 @@ class TlcResult:
         self.left = int(m.group(3)) if m else 0
         self.finished = "Model checking completed" in out or "Finished computing initial states" in out and self.left == 0 and m is not None
         self.invariant_violations = re.findall(r"Error: Invariant (\w+) is violated", out)
+        self.invariant_violations += re.findall(r"Error: Action property (\w+) is violated", out)
         self.property_violations = re.findall(r"Error: (?:Action|Temporal) propert(?:y|ies) (\w+)?", out)
         self.errors = [l for l in out.splitlines() if l.startswith("Error:") and "The behavior up to this point" not in l]
 
